@@ -1850,6 +1850,12 @@ class NNDescent:
                     raise ValueError(
                         "Could not convert updated indices to list of int(s)."
                     )
+                n_current = self._raw_data.shape[0]
+                if any(i < 0 or i >= n_current for i in updated_indices):
+                    raise ValueError(
+                        "updated_indices must be row numbers of the current data "
+                        f"(0 to {n_current - 1})."
+                    )
                 n1 = len(updated_indices)
                 n2 = xs_updated.shape[0]
                 if n1 != n2:
